@@ -3008,3 +3008,15 @@ def coalesce_copies(fn: ast.AST) -> bool:
             break
         changed = True
     return changed
+
+
+def tree_differs_from_reference(model) -> List[str]:
+    """Modules of the analysed tree whose source differs from the reviewed source (or that have no reviewed source)."""
+    out = []
+    for m in model.modules.values():
+        if os.path.basename(m.relpath) in ("glyphlist.py", "fontmetrics.py"):
+            continue
+        ref = reference_module(m.relpath)
+        if ref is None or ref[0] != m.src:
+            out.append(m.relpath)
+    return out
